@@ -252,9 +252,13 @@ func (q *queue) pop() (e queueElement, err error) {
 		return
 	}
 	queueOffset := (head % q.cap) * queueElementLen
+	vp(vpQPopNonEmpty)
 	e.seqID = *(*uint32)(unsafe.Pointer(&q.queueBytesOnMemory[queueOffset]))
+	vp(vpQPopLoad1)
 	e.offsetInShmBuf = *(*uint32)(unsafe.Pointer(&q.queueBytesOnMemory[queueOffset+4]))
+	vp(vpQPopLoad2)
 	e.status = *(*uint32)(unsafe.Pointer(&q.queueBytesOnMemory[queueOffset+8]))
+	vp(vpQPopBeforeHead)
 	atomic.AddInt64(q.head, 1)
 	return
 }
@@ -270,9 +274,13 @@ func (q *queue) put(e queueElement) error {
 		return ErrQueueFull
 	}
 	queueOffset := (tail % q.cap) * queueElementLen
+	vp(vpQPutChecked)
 	*(*uint32)(unsafe.Pointer(&q.queueBytesOnMemory[queueOffset])) = e.seqID
+	vp(vpQPutStore1)
 	*(*uint32)(unsafe.Pointer(&q.queueBytesOnMemory[queueOffset+4])) = e.offsetInShmBuf
+	vp(vpQPutStore2)
 	*(*uint32)(unsafe.Pointer(&q.queueBytesOnMemory[queueOffset+8])) = e.status
+	vp(vpQPutBeforeTail)
 	atomic.AddInt64(q.tail, 1)
 	q.Unlock()
 	return nil
@@ -288,9 +296,11 @@ func (q *queue) markWorking() bool {
 
 func (q *queue) markNotWorking() bool {
 	atomic.StoreUint32(q.workingFlag, 0)
+	vp(vpMNWStored0)
 	if q.size() == 0 {
 		return true
 	}
+	vp(vpMNWBeforeStore1)
 	atomic.StoreUint32(q.workingFlag, 1)
 	return false
 }
